@@ -28,8 +28,6 @@ Lemma filter_none {A} (f : A -> bool) l : (forall x, In x l -> f x = false) -> f
 Proof. induction l as [|x l IH]; intros H; [reflexivity|]. cbn. rewrite (H x) by (left; reflexivity). apply IH. intros; apply H; right; assumption. Qed.
 
 (* ------------------------------------------------------------------ 1. Utest::run = the executed statements, one after the other *)
-Definition step (w : world) (s : stmt) : world := match s with SFail => add_failure w | _ => exec_stmt w s end.
-
 Lemma run_phase_spec : forall l w,
   run_phase w l = (fold_left step (fst (upto_fail l)) w, negb (snd (upto_fail l))).
 Proof.
@@ -38,12 +36,21 @@ Proof.
     rewrite IH; destruct (upto_fail r) as [e f]; reflexivity.
 Qed.
 
-Lemma run_body_spec w t : run_body w t = fold_left step (executed t) w.
+Lemma run_body_spec w t : run_body w t = fold_left step (phase_text t) w.
 Proof.
-  unfold run_body, executed. rewrite run_phase_spec.
+  unfold run_body, phase_text. rewrite run_phase_spec.
   destruct (upto_fail (t_setup t)) as [a fa]. cbn [fst snd].
   destruct fa; cbn [negb]; rewrite !run_phase_spec; cbn [fst]; rewrite !fold_left_app; reflexivity.
 Qed.
+
+(* inner plugin's pre-action, the test, inner plugin's post-action *)
+Lemma inside_spec w t : fold_left step (t_ipost t) (run_body (fold_left step (t_ipre t) w) t) = fold_left step (executed t) w.
+Proof. unfold executed. rewrite !fold_left_app, run_body_spec. reflexivity. Qed.
+
+Lemma control_flow w t :
+  run_body w t = fold_left step (phase_text t) w /\
+  fold_left step (t_ipost t) (run_body (fold_left step (t_ipre t) w) t) = fold_left step (executed t) w.
+Proof. split; [apply run_body_spec|apply inside_spec]. Qed.
 
 (* what a statement list does to the plugin's members and to the failure count *)
 Definition declare (e : N) (ex : list stmt) : N := fold_left (fun e s => match s with SExpect n => n | _ => e end) ex e.
